@@ -165,6 +165,8 @@ def run(ctx, rep):
     K.share(ctx, rep, "c11", lambda o: o.rule == "R11.3" and ("serve_all" in o.key or "serve_threaded" in o.key), "R17.2", floor=2)
     # a server tears its clients down one after the other: closing one whose peer has vanished must not raise out of the loop
     K.share(ctx, rep, "c11", lambda o: o.rule == "R11.1" and "already gone" in o.key, "R17.1", floor=1)
+    # "each service's disconnect hook runs"
+    K.share(ctx, rep, "c11", lambda o: o.rule == "R11.2" and "on_disconnect runs exactly once" in o.key, "R17.1", floor=1)
     # "each client promptly observes end-of-stream": also the client thread that is parked waiting for the receive lock
     K.share(ctx, rep, "c13", lambda o: o.rule == "R13.4", "R17.2", floor=2)
     K.share(ctx, rep, "c05", lambda o: o.rule == "R05.3" and ".close:" in o.key, "R17.2", floor=3)
